@@ -170,6 +170,10 @@ func (mut *GenericMutableMap[M, T]) Revert(ctx context.Context) {
 	// may be stashed in a separate tree.MutableMap
 	if mut.stash != nil {
 		mut.tuples = *mut.stash
+		// |mut.tuples| now shares its edit list with the stash,
+		// so the stash is no longer a separate copy to revert to.
+		// The next flush will take a new one.
+		mut.stash = nil
 		return
 	}
 	mut.tuples.Edits.Revert(ctx)
@@ -179,7 +183,12 @@ func (mut *GenericMutableMap[M, T]) flushPending(ctx context.Context, deep bool)
 	stash := mut.stash
 	// if our in-memory edit set contains a checkpoint, we
 	// must stash a copy of |mut.tuples| we can revert to.
-	if mut.tuples.Edits.HasCheckpoint() {
+	// if there is no stash yet, the revert target is the
+	// state before any pending edit (a checkpoint taken on
+	// an empty edit set, or no checkpoint at all), which
+	// must be stashed as well or Revert cannot undo the
+	// edits flushed here.
+	if mut.tuples.Edits.HasCheckpoint() || stash == nil {
 		cp := mut.tuples.Copy()
 		cp.Edits.Revert(ctx)
 		if deep {
